@@ -28,8 +28,8 @@ import (
 	"verif/harness/internal/rng"
 )
 
-const header = "From Coq Require Import ZArith List Bool.\nImport ListNotations.\n" +
-	"From C14 Require Import Model CaseDefs.\nOpen Scope Z_scope."
+const header = "From Coq Require Import ZArith List Bool Uint63.\nImport ListNotations.\n" +
+	"From C14 Require Import Model CaseDefs.\nOpen Scope uint63_scope."
 
 const (
 	minuteMs = 60000
@@ -41,13 +41,57 @@ const (
 
 // ------------------------------------------------------------------ Coq rendering
 
+// Numbers travel as primitive 63-bit literals (CaseDefs.v: wz): [0,2^61) as is,
+// [2^63-2^60, 2^63+2^60) and [2^64-2^62, 2^64) shifted into [2^61,2^62) and [2^62,2^63).
+const (
+	p60 = uint64(1) << 60
+	p61 = uint64(1) << 61
+	p62 = uint64(1) << 62
+	top62 = uint64(3) << 62 // 2^64 - 2^62
+)
+
+func fits(v uint64) bool {
+	return v < p61 || (v >= two63-p60 && v < two63+p60) || v >= top62
+}
+
+// fit maps an arbitrary random value to a representable one
+func fit(v uint64) uint64 {
+	if fits(v) {
+		return v
+	}
+	return v >> 3
+}
+
+func zu(v uint64) string {
+	switch {
+	case v < p61:
+		return fmt.Sprint(v)
+	case v >= two63-p60 && v < two63+p60:
+		return fmt.Sprint(v - (two63 - p60) + p61)
+	case v >= top62:
+		return fmt.Sprint(v - (top62) + p62)
+	}
+	panic(fmt.Sprintf("hC14: value %d is outside the wire zones", v))
+}
+
 func zi(x int64) string {
 	if x < 0 {
-		return fmt.Sprintf("(%d)", x)
+		panic("hC14: negative number on the wire")
 	}
-	return fmt.Sprint(x)
+	return zu(uint64(x))
 }
-func zu(x uint64) string { return fmt.Sprint(x) }
+
+// randRID: 64-bit random part of an ID inside the wire zones (all three zones)
+func randRID(r *rng.R) uint64 {
+	switch r.Intn(3) {
+	case 0:
+		return r.U64() >> 3
+	case 1:
+		return two63 - p60 + r.U64()>>3
+	}
+	return top62 + r.U64()>>2
+}
+
 func zb(b bool) string   { return casefile.Bool(b) }
 
 // nest renders a monomorphic wire list (see CaseDefs.v): (cons item1 (cons item2 ... nil))
@@ -85,17 +129,34 @@ func listI(xs []int) string {
 func listB(xs []byte) string {
 	p := make([]string, len(xs))
 	for i, x := range xs {
-		p[i] = fmt.Sprint(x)
+		p[i] = zu(uint64(x))
 	}
 	return nest("zc", "zn", p)
 }
-func idCoq(id seq.ID) string { return fmt.Sprintf("%d %d", uint64(id.MID), uint64(id.RID)) }
+func idCoq(id seq.ID) string { return zu(uint64(id.MID)) + " " + zu(uint64(id.RID)) }
 func listID(ids []seq.ID) string {
 	p := make([]string, len(ids))
 	for i, x := range ids {
 		p[i] = idCoq(x)
 	}
-	return nest("idc", "idn", p)
+	// long lists: chain of chunks joined by idj (keeps the literal's nesting depth small)
+	const chunk = 200
+	if len(p) <= chunk {
+		return nest("idc", "idn", p)
+	}
+	var sb strings.Builder
+	n := 0
+	for i := 0; i < len(p); i += chunk {
+		j := min(i+chunk, len(p))
+		if j < len(p) {
+			sb.WriteString("(idj ")
+			n++
+		}
+		sb.WriteString(nest("idc", "idn", p[i:j]))
+		sb.WriteString(" ")
+	}
+	sb.WriteString(strings.Repeat(")", n))
+	return sb.String()
 }
 
 // distribution state -> (from, to, bucket, size, bin); reports sub-millisecond ends
@@ -241,7 +302,7 @@ func runDist(w *casefile.Writer, in distIn, class string) {
 			rt = ostate(w, restored, in)
 		}
 		for _, m := range in.Idx {
-			idx = append(idx, fmt.Sprintf("%d %d", m, d.VerifC14MidToIndex(seq.MID(m))))
+			idx = append(idx, fmt.Sprintf("%s %d", zu(m), d.VerifC14MidToIndex(seq.MID(m))))
 		}
 		for _, q := range in.Qs {
 			r1 := d.IsIntersecting(seq.MID(q[0]), seq.MID(q[1]))
@@ -252,7 +313,7 @@ func runDist(w *casefile.Writer, in distIn, class string) {
 			if !r1 || !r2 {
 				nontrivial = true // the distribution really prunes something
 			}
-			qs = append(qs, fmt.Sprintf("%d %d %s %s", q[0], q[1], zb(r1), zb(r2)))
+			qs = append(qs, fmt.Sprintf("%s %s %s %s", zu(q[0]), zu(q[1]), zb(r1), zb(r2)))
 		}
 	})
 	if p != nil {
@@ -430,9 +491,9 @@ func genQueries(r *rng.R, creation uint64, mids []uint64, n int, allowHuge bool)
 			lo := satAdd(min(mn, dfrom), -2*3600000)
 			hi := satAdd(max(mx, creation), 2*3600000)
 			if hi-lo == math.MaxUint64 {
-				return r.U64()
+				return fit(r.U64())
 			}
-			return lo + r.U64()%(hi-lo+1)
+			return fit(lo + r.U64()%(hi-lo+1))
 		}
 	}
 	qs := make([][2]uint64, 0, n)
@@ -498,14 +559,14 @@ func runInfo(w *casefile.Writer, in infoIn, class string) {
 			if !r1 && info.Distribution != nil && q[0] <= q[1] && q[1] >= mn && q[0] <= mx {
 				nontrivial = true // pruned by the occupancy map, not by the borders
 			}
-			qs = append(qs, fmt.Sprintf("%d %d %s %s", q[0], q[1], zb(r1), zb(r2)))
+			qs = append(qs, fmt.Sprintf("%s %s %s %s", zu(q[0]), zu(q[1]), zb(r1), zb(r2)))
 		}
 	})
 	if p != nil {
 		w.Violate("panic:info", fmt.Sprintf("frac.Info distribution code panics: %v", p), in)
 		return
 	}
-	w.Add(fmt.Sprintf("WInfo %d %s %s %d %d %s %s %s", in.Creation, listU(in.Docs), zb(in.Stub), mn, mx, st, rt, nest("q4c", "q4n", qs)),
+	w.Add(fmt.Sprintf("WInfo %s %s %s %s %s %s %s %s", zu(in.Creation), listU(in.Docs), zb(in.Stub), zu(mn), zu(mx), st, rt, nest("q4c", "q4n", qs)),
 		"info-"+class, nontrivial, in, map[string]any{"dist": st, "restored": rt})
 }
 
@@ -548,7 +609,7 @@ func runBorders(w *casefile.Writer, in bordersIn, class string) {
 			if int(lo) > 1 && int(hi) < len(ids) && lo <= hi {
 				nontrivial = true // narrowed on both sides and non-empty
 			}
-			qs = append(qs, fmt.Sprintf("%d %d %d %d", q[0], q[1], lo, hi))
+			qs = append(qs, fmt.Sprintf("%s %s %d %d", zu(q[0]), zu(q[1]), lo, hi))
 		}
 	})
 	if p != nil {
@@ -591,9 +652,9 @@ func genBorders(w *casefile.Writer, r *rng.R, thorough bool) {
 		creation, mids, _ := genDocs(r, 40, true)
 		var ids []seq.ID
 		for _, m := range mids {
-			ids = append(ids, seq.ID{MID: seq.MID(m), RID: seq.RID(rng.Pick(r, []uint64{0, 1, r.U64(), math.MaxUint64}))})
+			ids = append(ids, seq.ID{MID: seq.MID(m), RID: seq.RID(rng.Pick(r, []uint64{0, 1, randRID(r), math.MaxUint64}))})
 			if r.Chance(1, 8) { // duplicates and same-MID neighbours
-				ids = append(ids, ids[len(ids)-1], seq.ID{MID: seq.MID(m), RID: seq.RID(r.U64())})
+				ids = append(ids, ids[len(ids)-1], seq.ID{MID: seq.MID(m), RID: seq.RID(randRID(r))})
 			}
 		}
 		sortDesc(ids)
@@ -686,10 +747,10 @@ func observeFrac(w *casefile.Writer, in storeIn, k int, f frac.Fraction, sealed,
 			if len(res) > 0 && len(res) < len(ids) {
 				nontrivial = true
 			}
-			qs = append(qs, fmt.Sprintf("%d %d %s %d %d %s", q[0], q[1], zb(r), lo, hi, listID(res)))
+			qs = append(qs, fmt.Sprintf("%s %s %s %d %d %s", zu(q[0]), zu(q[1]), zb(r), lo, hi, listID(res)))
 		}
-		term = fmt.Sprintf("WFrac %d %s %s %s %d %d %d %s %s %s %s", fr.Creation, listID(ids), zb(sealed), zb(restored),
-			info.DocsTotal, uint64(info.From), uint64(info.To), st, listID(mins), zb(tblOK), nest("fqc", "fqn", qs))
+		term = fmt.Sprintf("WFrac %s %s %s %s %d %s %s %s %s %s %s", zu(fr.Creation), listID(ids), zb(sealed), zb(restored),
+			info.DocsTotal, zu(uint64(info.From)), zu(uint64(info.To)), st, listID(mins), zb(tblOK), nest("fqc", "fqn", qs))
 	})
 	if p != nil {
 		w.Violate("panic:fraction", fmt.Sprintf("real fraction (%s) panics: %v", phase, p), input)
@@ -725,7 +786,7 @@ func observeStore(w *casefile.Writer, in storeIn, fracs fracmanager.List, phase 
 			if len(res) > 0 && len(res) < len(all) {
 				nontrivial = true
 			}
-			qs = append(qs, fmt.Sprintf("%d %d %s", q[0], q[1], listID(res)))
+			qs = append(qs, fmt.Sprintf("%s %s %s", zu(q[0]), zu(q[1]), listID(res)))
 		}
 	})
 	if p != nil {
@@ -835,7 +896,7 @@ func genFracIn(r *rng.R, nmax int) (fracIn, uint64, []uint64) {
 	seen := map[[2]uint64]bool{}
 	var docs [][2]uint64
 	for _, m := range mids {
-		d := [2]uint64{m, rng.Pick(r, []uint64{0, 1, 2, r.U64(), r.U64(), math.MaxUint64})}
+		d := [2]uint64{m, rng.Pick(r, []uint64{0, 1, 2, randRID(r), randRID(r), math.MaxUint64})}
 		if d[0] == 0 { // frac.DocProvider treats MID 0 as "no ID" (test helper): not storable
 			d[0] = 1
 		}
@@ -882,7 +943,7 @@ func genBigStore(seed uint64, n int) storeIn {
 		if r.Chance(1, 3) && len(mids) > 0 { // many equal MIDs, also across block borders
 			m = rng.Pick(r, mids)
 		}
-		d := [2]uint64{m, rng.Pick(r, []uint64{0, r.U64(), r.U64(), math.MaxUint64})}
+		d := [2]uint64{m, rng.Pick(r, []uint64{0, randRID(r), randRID(r), math.MaxUint64})}
 		if seen[d] {
 			continue
 		}
